@@ -165,9 +165,34 @@ func evalOrd(f *ssa.Function, ranks [3]int) (param int, label int64, why string)
 	// what the stores executed on the way have put into local struct variables, field by field (a result variable
 	// assigned in the arms and returned once)
 	mem := map[*ssa.Alloc]map[int]ssa.Value{}
+	// integer results of comparison-only helpers of the package called with the scores (pickStep(mch, del, ins))
+	ints := map[ssa.Value]int64{}
+	intOf := func(v ssa.Value) (int64, bool) {
+		if k, ok := ints[v]; ok {
+			return k, true
+		}
+		return cInt(constVal(v))
+	}
 	for steps := 0; steps < 200; steps++ {
 		for _, in := range blk.Instrs {
 			switch x := in.(type) {
+			case *ssa.Call:
+				if g := x.Call.StaticCallee(); g != nil && g.Blocks != nil && g.Pkg == f.Pkg && len(x.Call.Args) == len(g.Params) {
+					var sub []int
+					okArgs := true
+					for _, a := range x.Call.Args {
+						if i := pidx(a); i >= 0 {
+							sub = append(sub, ranks[i])
+						} else {
+							okArgs = false
+						}
+					}
+					if okArgs {
+						if k, ok := evalOrdInt(g, sub); ok {
+							ints[x] = k
+						}
+					}
+				}
 			case *ssa.Store:
 				switch ad := x.Addr.(type) {
 				case *ssa.FieldAddr:
@@ -198,6 +223,15 @@ func evalOrd(f *ssa.Function, ranks [3]int) (param int, label int64, why string)
 				}
 			case *ssa.BinOp:
 				xi, yi := pidx(x.X), pidx(x.Y)
+				if _, isHelperInt := ints[x.X]; isHelperInt || func() bool { _, ok := ints[x.Y]; return ok }() {
+					if a, ok1 := intOf(x.X); ok1 {
+						if b, ok2 := intOf(x.Y); ok2 {
+							if res, ok := cmpHolds(x.Op, int(a), int(b)); ok {
+								bools[x] = res
+							}
+						}
+					}
+				}
 				if xi >= 0 && yi >= 0 {
 					if res, ok := cmpHolds(x.Op, ranks[xi], ranks[yi]); ok {
 						bools[x] = res
@@ -247,7 +281,7 @@ func evalOrd(f *ssa.Function, ranks [3]int) (param int, label int64, why string)
 					for _, v := range mem[al] {
 						if p := pidx(v); p >= 0 {
 							param = p
-						} else if n, ok := cInt(constVal(v)); ok {
+						} else if n, ok := intOf(v); ok {
 							label, gotLabel = n, true
 						} else {
 							return -1, 0, "field stored from a computed value"
@@ -265,6 +299,101 @@ func evalOrd(f *ssa.Function, ranks [3]int) (param int, label int64, why string)
 		}
 	}
 	return -1, 0, "loop in a comparison-only function"
+}
+
+// evalOrdInt follows a comparison-only function of the package that returns an integer constant (a step label chosen
+// from the scores), under the ranks its arguments have: the constant returned, if the walk is decided.
+func evalOrdInt(g *ssa.Function, ranks []int) (int64, bool) {
+	pidx := func(v ssa.Value) int {
+		for i, p := range g.Params {
+			if ssa.Value(p) == v {
+				return i
+			}
+		}
+		return -1
+	}
+	bools := map[ssa.Value]bool{}
+	boolOf := func(v ssa.Value) (bool, bool) {
+		if b, ok := bools[v]; ok {
+			return b, true
+		}
+		if k, ok := v.(*ssa.Const); ok && k.Value != nil && k.Value.Kind() == constant.Bool {
+			return constant.BoolVal(k.Value), true
+		}
+		return false, false
+	}
+	blk := g.Blocks[0]
+	var prev *ssa.BasicBlock
+	for steps := 0; steps < 100; steps++ {
+		for _, in := range blk.Instrs {
+			switch x := in.(type) {
+			case *ssa.Phi:
+				for i, p := range blk.Preds {
+					if p == prev {
+						if b, ok := boolOf(x.Edges[i]); ok {
+							bools[x] = b
+						}
+					}
+				}
+			case *ssa.BinOp:
+				xi, yi := pidx(x.X), pidx(x.Y)
+				if xi >= 0 && yi >= 0 && xi < len(ranks) && yi < len(ranks) {
+					if res, ok := cmpHolds(x.Op, ranks[xi], ranks[yi]); ok {
+						bools[x] = res
+					}
+				} else if xb, ok1 := boolOf(x.X); ok1 {
+					if yb, ok2 := boolOf(x.Y); ok2 {
+						switch x.Op {
+						case token.EQL:
+							bools[x] = xb == yb
+						case token.NEQ:
+							bools[x] = xb != yb
+						}
+					}
+				}
+			case *ssa.UnOp:
+				if x.Op == token.NOT {
+					if b, ok := boolOf(x.X); ok {
+						bools[x] = !b
+					}
+				}
+			case *ssa.Store, *ssa.Call, *ssa.MapUpdate:
+				return 0, false // not comparison-only
+			}
+		}
+		switch t := lastInstr(blk).(type) {
+		case *ssa.If:
+			res, ok := boolOf(t.Cond)
+			if !ok {
+				return 0, false
+			}
+			prev = blk
+			if res {
+				blk = blk.Succs[0]
+			} else {
+				blk = blk.Succs[1]
+			}
+		case *ssa.Jump:
+			prev = blk
+			blk = blk.Succs[0]
+		case *ssa.Return:
+			if len(t.Results) != 1 {
+				return 0, false
+			}
+			v := t.Results[0]
+			if phi, ok := v.(*ssa.Phi); ok && phi.Block() == blk {
+				for i, p := range blk.Preds {
+					if p == prev {
+						v = phi.Edges[i]
+					}
+				}
+			}
+			return cInt(constVal(v))
+		default:
+			return 0, false
+		}
+	}
+	return 0, false
 }
 
 // readBlockResult reads (score parameter, step constant) from the returned block value: a load of a local
